@@ -94,11 +94,25 @@ def build_mm(case):
     df = frame(case['panel'])
     ge = eligibility(case)
     par = params(case['kw'])
+    prior = case.get('prior')
+    if prior and prior.get('shared_eligibility'):
+        if ge is not None:
+            # NON-INITIAL state of the caller's ELIGIBILITY object: it has already served another data object (another
+            # response metric of the same geos whose volume ranking is the reverse) and a matched-markets object on it
+            df2 = df.copy()
+            mean = df2.groupby('geo')['sales'].transform('mean')
+            df2['sales'] = df2['sales'] * 4096.0 / (mean * mean)
+            try:
+                mm2 = TBRMatchedMarkets(TBRMMData(df2, 'sales', ge), params(prior['kw']))
+                mm2.geo_assignments
+                mm2.count_max_designs()
+            except ValueError:
+                pass
+        prior = None
     try:
         data = TBRMMData(df, 'sales', ge)
     except Exception as e:
         raise DataStageError(e)
-    prior = case.get('prior')
 
     def other_object_uses_the_data():
         mm0 = TBRMatchedMarkets(data, params(prior['kw']))
@@ -181,8 +195,16 @@ def observe(case, want_admitted=True):
         if not isinstance(res, list):
             obs['exc'] = {'type': 'NotAList:' + type(res).__name__, 'site': 'return', 'msg': ''}
             return obs
-        obs['designs'] = [extract_design(d) for d in res]
         obs['par_changed'] = dataclasses.asdict(par) != before
+        if case.get('caller_edits_parameters_after'):
+            # caller-side action: the score tuples are read first, then the caller re-uses HIS parameter object for the next
+            # task (edits its fields), and only then looks at the diagnostics of the designs he was given
+            pinned = [tuple(d.score.score) for d in res]
+            par.min_corr, par.sig_level, par.power_level, par.flevel = 0.99, 0.6, 0.55, 0.97
+            par.n_test = par.n_test + 2
+            par.rho_max, par.iroas = 0.9, par.iroas * 3.0
+            del pinned
+        obs['designs'] = [extract_design(d) for d in res]
         obs['stage'] = 'done'
     except DataStageError as e:
         obs['stage'] = 'data'
